@@ -184,23 +184,3 @@ pub fn exact<const NS: usize, const NI: usize>(i: &mut Inp) -> Out {
     )
 }
 
-// ---- size probes (not registered as obligations)
-pub fn dbg_build(i: &mut Inp) -> Out {
-    let c = build::<3, 2>(i);
-    Out::new(check(c.cfg.proof_of_work.n_bits != 77, "x"), true)
-}
-pub fn dbg_oracle(i: &mut Inp) -> Out {
-    let c = build::<3, 2>(i);
-    let want = oracle(&c);
-    Out::new(check(!want || c.cfg.proof_of_work.n_bits != 33, "x"), true)
-}
-pub fn dbg_validate(i: &mut Inp) -> Out {
-    let c = build::<3, 2>(i);
-    let got = c.cfg.validate(c.security_bits, c.cols1, c.cols2).is_ok();
-    Out::new(check(!got || c.cfg.proof_of_work.n_bits != 33, "x"), true)
-}
-pub fn dbg_fri(i: &mut Inp) -> Out {
-    let c = build::<3, 2>(i);
-    let got = c.cfg.fri.validate(c.cfg.log_n_cosets, c.cfg.n_verifier_friendly_commitment_layers).is_ok();
-    Out::new(check(!got || c.cfg.proof_of_work.n_bits != 33, "x"), true)
-}
